@@ -10,7 +10,7 @@ Theorem C09_capture_point : forall e s,
   pid (sr (nd s)) = 0 /\
   exists sn pre post,
     s_hist sn = hist (nd s) /\ s_ver sn = enabled_ver (nd s) /\
-    s_cluster sn = cluster_of (nd s) /\ s_len sn = snaplen e /\
+    s_cluster sn = cluster_at_applied (nd s) /\ s_len sn = snaplen e /\
     log (nd s) = pre ++ s_e0 sn :: s_e1 sn :: post /\
     N.of_nat (length pre) = applied (nd s) - 1 - first_idx (log (nd s)) /\
     first_idx (log (nd s)) <= applied (nd s) - 1 /\
@@ -27,7 +27,7 @@ Theorem C09_capture_point_indices : forall e s,
     cur_id (sr (nd (try_compact e s))) = applied (nd s) - 1 /\
     eidx (s_e0 sn) = applied (nd s) - 1 /\ eidx (s_e1 sn) = applied (nd s) /\
     In (s_e0 sn) (log (nd s)) /\ In (s_e1 sn) (log (nd s)) /\
-    s_hist sn = hist (nd s) /\ s_ver sn = enabled_ver (nd s) /\ s_cluster sn = cluster_of (nd s).
+    s_hist sn = hist (nd s) /\ s_ver sn = enabled_ver (nd s) /\ s_cluster sn = cluster_at_applied (nd s).
 Proof. exact capture_point_indices. Qed.
 Print Assumptions C09_capture_point_indices.
 
@@ -52,6 +52,7 @@ Print Assumptions C09_compaction_keeps_snapshot_entries.
 
 Theorem C09_load_restores : forall e s sn,
   stored (sr (nd s)) = Some (Good sn) -> s_ver sn <= self_ver (nd s) ->
+  applied (nd s) < eidx (s_e1 sn) ->
   let s' := load_dump e true s in
   load_dump_ok s = true /\
   hist (nd s') = s_hist sn /\ enabled_ver (nd s') = s_ver sn /\ applied (nd s') = eidx (s_e1 sn) /\
@@ -66,17 +67,27 @@ Print Assumptions C09_load_restores.
 
 Theorem C09_load_failure_cases : forall s, load_dump_ok s = false <->
   (stored (sr (nd s)) = None \/ (exists l, stored (sr (nd s)) = Some (Corrupt l)) \/
-   exists sn, stored (sr (nd s)) = Some (Good sn) /\ self_ver (nd s) < s_ver sn).
+   exists sn, stored (sr (nd s)) = Some (Good sn) /\
+              (self_ver (nd s) < s_ver sn \/ eidx (s_e1 sn) <= applied (nd s))).
 Proof. exact load_dump_ok_cases. Qed.
 Print Assumptions C09_load_failure_cases.
 
-Theorem C09_load_failure_keeps_state : forall e clear s, load_dump_ok s = false -> load_dump e clear s = s.
+Theorem C09_load_failure_keeps_state : forall e clear s,
+  load_dump_ok s = false -> snap_behind s = false -> load_dump e clear s = s.
 Proof. exact load_dump_fail. Qed.
 Print Assumptions C09_load_failure_keeps_state.
 
+(* a received snapshot that is not ahead of the node's position is not installed; the node only
+   asks for a fresh snapshot of its own *)
+Theorem C09_behind_snapshot_not_installed : forall e s,
+  snap_behind s = true ->
+  load_dump e true s = upd (fun n => n <| force_compact := true |> <| last_ser_entry := None |>) s.
+Proof. exact load_dump_behind. Qed.
+Print Assumptions C09_behind_snapshot_not_installed.
+
 Theorem C09_load_failure_no_reply : forall e from t c p s,
   let s' := on_append_entries e from (AESnap t c p) t c s in
-  load_dump_ok s' = false \/ snd (set_transmission p s) = false ->
+  load_dump_ok (fst (set_transmission p s)) = false \/ snd (set_transmission p s) = false ->
   commit (nd s') = commit (nd s) /\ log (nd s') = log (nd s) /\ hist (nd s') = hist (nd s) /\
   applied (nd s') = applied (nd s) /\ enabled_ver (nd s') = enabled_ver (nd s) /\
   no_new_send s s' /\ exc s' = exc s.
@@ -88,6 +99,7 @@ Theorem C09_install_reply : forall e from t c p s sn,
   snd (set_transmission p s) = true ->
   let s' := on_append_entries e from (AESnap t c p) t c s in
   stored (sr (nd s')) = Some (Good sn) -> s_ver sn <= self_ver (nd s) ->
+  applied (nd s) < eidx (s_e1 sn) ->
   hist (nd s') = s_hist sn /\ enabled_ver (nd s') = s_ver sn /\ applied (nd s') = eidx (s_e1 sn) /\
   log (nd s') = [s_e0 sn; s_e1 sn] /\
   commit (nd s') = (if commit (nd s) <? c then N.max (commit (nd s)) (N.min c (eidx (s_e1 sn))) else commit (nd s)) /\
